@@ -260,6 +260,7 @@ func vNewMState(k *vManifestKit) *vMState {
 		config:          ServiceConfig{},
 		hostnameService: vScriptedHostnames{},
 	}
+	vs.InitNilMaps(m)
 	s.m = m
 	vMgrRouter.Register(m, s.st)
 	go m.run(s.done)
